@@ -107,12 +107,25 @@ type OblResult struct {
 	Info    string  `json:"info,omitempty"`
 	Model   map[string]string `json:"model,omitempty"`
 	Script  string  `json:"-"`
+	Replayed  bool   `json:"replayed"`
+	ReplayLog string `json:"replay_log,omitempty"`
+	ReplayCmd string `json:"replay_cmd,omitempty"`
 }
 
 func discharge(o *Obligation, timeout time.Duration) (r OblResult) {
 	r = OblResult{Name: o.Name, Kind: o.Kind, Func: o.Func, Detail: o.Detail, Pos: o.Pos}
 	t0 := time.Now()
 	defer func() { r.Time = time.Since(t0).Seconds() }()
+	if o.Kind == "cover" {
+		sr := Solve(&Query{Facts: o.Facts, Goal: nil, Axioms: o.Axioms}, 10*time.Second, false, nil)
+		if sr.Verdict == "unsat" {
+			r.Verdict, r.Backend, r.Info = "failed", sr.Solver, "the assumptions are contradictory: every proof about this function instance would be vacuous"
+			r.Script = sr.Script
+		} else {
+			r.Verdict, r.Backend = "proved", "cover:"+sr.Verdict
+		}
+		return r
+	}
 	if o.Goal.IsTrue() {
 		r.Verdict, r.Backend = "proved", "trivial"
 		return r
@@ -273,6 +286,9 @@ func cmdVerify(args []string) {
 	var all []*Obligation
 	for _, r := range results {
 		all = append(all, r.Obligations...)
+		if r.Cover != nil {
+			all = append(all, r.Cover)
+		}
 		for _, e := range r.Errors {
 			fmt.Printf("ERROR %s{%s}: %s\n", r.Func, r.AliasCase, e)
 		}
@@ -316,9 +332,4 @@ func (en *Engine) lookupFunc(pkgPath, key string) *ssa.Function {
 		}
 	}
 	return nil
-}
-
-func cmdCheck(args []string) {
-	fmt.Fprintln(os.Stderr, "check: not yet implemented")
-	os.Exit(2)
 }
